@@ -270,6 +270,21 @@ class _NotFoundValue():
 NOT_FOUND = _NotFoundValue()
 
 
+def _row_of(grid, ref):
+    '''
+    The row a reference points to: the one whose id is that reference
+    (or, in hand-built grids, the reference's name as a plain string).
+    '''
+    try:
+        return grid[ref.name]
+    except KeyError:
+        for row in grid:
+            row_id = row.get('id')
+            if isinstance(row_id, Ref) and row_id.name == ref.name:
+                return row
+        raise
+
+
 def _get_path(grid, obj, paths):
     try:
         for i, path in enumerate(paths):
@@ -277,7 +292,7 @@ def _get_path(grid, obj, paths):
             if i != len(paths)-1:
                 if not isinstance(obj, Ref):
                     return NOT_FOUND  # Only a reference can be followed
-                obj = grid[obj.name]  # Follow the reference
+                obj = _row_of(grid, obj)  # Follow the reference
         return obj  # It's a value at this time
     except KeyError:
         return NOT_FOUND
